@@ -99,4 +99,7 @@ def targets(tier='quick'):
         T.append(Target('dyn/schedule[envs=%d]' % ne, 'system_dynamics.compute_dynamics',
                         lambda ip, repo, ne=ne: dyn.cd_scenario(ip, repo, num_envs=ne), c18.post_cd_schedule, RD, PROP,
                         replay=lambda ob: {'func': 'exact_ancilla', 'inputs': {}}))
+    # util.create_delta on its real body: the contract the targets above assume at its call sites
+    from . import delta
+    T += delta.targets(PROP)
     return T
